@@ -232,15 +232,20 @@ def stepD (d : DState) (toks : List String) : DState × String :=
         let n2 := decL names2
         -- what each phase asks for: request 1; request 2 (SotW: exactly the new list; delta: the names it subscribes);
         -- the push (everything watched: SotW the latest list, delta the union)
-        let phases : List (List Str) :=
-          [n1] ++ (if names2 == "none" then [] else [n2]) ++
+        let forced : PushReq := ⟨true, []⟩
+        -- after a Gateway change the server pushes one Secret (ns1/e) scoped and not forced: SDS answers incrementally
+        -- from the proxy state the Gateway push left behind
+        let secretPush : PushReq := ⟨false, [⟨.secret, "e".toList, "ns1".toList⟩]⟩
+        let changed := gwop == "add" || gwop == "del"
+        let phases : List (List Str × Proxy × PushReq) :=
+          [(n1, p1, forced)] ++ (if changed then [(n1, p2, secretPush)] else []) ++
+          (if names2 == "none" then [] else [(n2, p2, forced)]) ++
           (if tokBool push then
-             [if names2 == "none" then n1 else if mode == "delta" then n1 ++ n2.filter (fun x => !n1.contains x) else n2]
+             [(if names2 == "none" then n1 else if mode == "delta" then n1 ++ n2.filter (fun x => !n1.contains x) else n2,
+               p2, forced)]
            else [])
-        let run := (phases.zipIdx).foldl (fun (acc : Cache × List String) (nsi : List Str × Nat) =>
-          let ns := nsi.1
-          let p := if nsi.2 == 0 then p1 else p2
-          match generate d.world acc.1 p ns (some ⟨true, []⟩) with
+        let run := phases.foldl (fun (acc : Cache × List String) (ph : List Str × Proxy × PushReq) =>
+          match generate d.world acc.1 ph.2.1 ph.1 (some ph.2.2) with
           | none => (acc.1, acc.2 ++ ["-"])
           | some o => (o.cache, acc.2 ++ [encList (sortOnly (o.res.map (fun e => showVal e.1 e.2)))])) (d.cache, [])
         ({ d with cache := run.1 }, s!"accepted {showId v} cfg={l2t cfg} " ++ " ".intercalate run.2)
